@@ -114,7 +114,7 @@ type features struct {
 	inline, ignore, unexp, dotted, emptyTag   bool
 	ptr, slice, array, mapk, dur, re, named   bool
 	inlineMapNextToNamed, ptrToArray, nonZero bool
-	numericTag, overlap, uniName              bool
+	numericTag, overlap, uniName, embedded    bool
 }
 
 func scan(td *gen.TD, depth int, f *features) {
@@ -165,6 +165,9 @@ func scan(td *gen.TD, depth int, f *features) {
 			}
 			if fd.Name[0] >= 0x80 {
 				f.uniName = true
+			}
+			if fd.Embedded {
+				f.embedded = true
 			}
 			if len(fd.Tag) > 0 && fd.Tag[0] >= '0' && fd.Tag[0] <= '9' {
 				f.numericTag = true
@@ -306,6 +309,7 @@ func runCase(c Case, r *runlog.R) error {
 	r.ClassIf(f.ignore, "ignore")
 	r.ClassIf(f.unexp, "unexported")
 	r.ClassIf(f.uniName, "exported Go field name starting with a non-ASCII letter")
+	r.ClassIf(f.embedded, "embedded struct field (named, untagged or inlined)")
 	r.ClassIf(f.dotted, "dotted tag")
 	r.ClassIf(f.overlap, "dotted tag leading into the namespace of a struct field")
 	r.ClassIf(f.emptyTag, "no config name")
@@ -324,7 +328,7 @@ func runCase(c Case, r *runlog.R) error {
 
 var subRT = runlog.Register(&runlog.Sub[Case]{
 	Name: "struct-roundtrip",
-	Rule: "random struct types (reflect.StructOf over all primitive kinds, Go field names incl. non-ASCII exported ones, named variants, durations, regexps, pointers, slices, arrays, string-keyed maps, nested and inline structs; tags: rename, rename to a number, dotted with PathSep (also leading 1-3 levels into the namespace of a struct field declared before or after it), inline, ignore, unexported, no name) with values biased to zero values, type extremes, NaN/-0/Inf, nil vs empty collections and strings with $ . , { }; Unpack(NewFrom(v)) into a zero value must equal v; a third of the types carry a second tag set and are round-tripped under the default tag name and under StructTag(alt) alternately in one process (nil == empty collection, regexps by source, pointer chains by pointee, ignored/unexported fields zero). Non-trivial: the type has >= 2 levels or a tag other than a plain rename, and the value has a non-zero leaf. Distinct: hash of (type, value, options).",
+	Rule: "random struct types (reflect.StructOf over all primitive kinds, Go field names incl. non-ASCII exported ones, named variants, durations, regexps, pointers, slices, arrays, string-keyed maps, nested, inline and embedded structs; tags: rename, rename to a number, dotted with PathSep (also leading 1-3 levels into the namespace of a struct field declared before or after it), inline, ignore, unexported, no name) with values biased to zero values, type extremes, NaN/-0/Inf, nil vs empty collections and strings with $ . , { }; Unpack(NewFrom(v)) into a zero value must equal v; a third of the types carry a second tag set and are round-tripped under the default tag name and under StructTag(alt) alternately in one process (nil == empty collection, regexps by source, pointer chains by pointee, ignored/unexported fields zero). Non-trivial: the type has >= 2 levels or a tag other than a plain rename, and the value has a non-zero leaf. Distinct: hash of (type, value, options).",
 	Gen:  genCase,
 	Run:  runCase,
 })
